@@ -209,9 +209,27 @@ pub struct CaseResult {
     pub sample: Value,
 }
 
+/// a contiguous range of case numbers that shares chunking and watchdog settings
+#[derive(Clone, Debug)]
+pub struct Segment {
+    pub from: u64,
+    pub to: u64,
+    pub chunk: u64,
+    pub case_timeout_s: u64,
+}
+
 pub trait DynMonitor: Send + Sync {
     fn id(&self) -> &'static str;
     fn plan(&self, tier: Tier) -> Plan;
+    fn segments(&self, tier: Tier) -> Vec<Segment> {
+        let p = self.plan(tier);
+        vec![Segment {
+            from: 0,
+            to: p.cases,
+            chunk: p.chunk.max(1),
+            case_timeout_s: p.case_timeout_s,
+        }]
+    }
     fn run_case(&self, env: &Env, k: u64, want_sample: bool) -> CaseResult;
     fn dump_case(&self, env: &Env, k: u64) -> Value;
     fn replay(&self, env: &Env, case: &Value) -> Result<CaseResult, String>;
@@ -311,8 +329,9 @@ pub fn checked_catch<M: Monitor>(m: &M, env: &Env, case: &M::Case) -> Checked {
 }
 
 /// the part of a signature that has to stay the same while shrinking
+/// convention: `<clause>//<minimal structural cause>` — only the clause has to survive a shrink step
 fn sig_class(sig: &str) -> &str {
-    sig
+    sig.split("//").next().unwrap_or(sig)
 }
 
 pub fn shrink_case<M: Monitor>(m: &M, env: &Env, case: M::Case, first: &Checked) -> (M::Case, Checked) {
@@ -405,5 +424,84 @@ impl<M: Monitor> DynMonitor for Erased<M> {
     }
     fn sidecar(&self, env: &Env) -> Vec<SidecarReport> {
         self.0.sidecar(env)
+    }
+}
+
+/// several monitors deciding one property (e.g. an in-process part and an end-to-end part):
+/// their case numbers are concatenated, each part keeps its own chunking and watchdog
+pub struct Multi {
+    pub id: &'static str,
+    pub parts: Vec<std::sync::Arc<dyn DynMonitor>>,
+}
+
+impl Multi {
+    fn locate(&self, tier: Tier, k: u64) -> (usize, u64) {
+        let mut off = 0;
+        for (i, p) in self.parts.iter().enumerate() {
+            let n = p.plan(tier).cases;
+            if k < off + n {
+                return (i, k - off);
+            }
+            off += n;
+        }
+        (self.parts.len() - 1, 0)
+    }
+}
+
+impl DynMonitor for Multi {
+    fn id(&self) -> &'static str {
+        self.id
+    }
+    fn plan(&self, tier: Tier) -> Plan {
+        let plans: Vec<Plan> = self.parts.iter().map(|p| p.plan(tier)).collect();
+        let mut out = plans[0].clone();
+        out.cases = plans.iter().map(|p| p.cases).sum();
+        out.workers = plans.iter().map(|p| p.workers).max().unwrap_or(16);
+        out.case_timeout_s = plans.iter().map(|p| p.case_timeout_s).max().unwrap_or(60);
+        out.floor_nontrivial = plans.iter().map(|p| p.floor_nontrivial).sum();
+        out.floor_buckets = plans.iter().flat_map(|p| p.floor_buckets.clone()).collect();
+        out.rule = plans
+            .iter()
+            .enumerate()
+            .map(|(i, p)| format!("part {}: {}", i + 1, p.rule))
+            .collect::<Vec<_>>()
+            .join(" || ");
+        out.assumptions = plans.iter().flat_map(|p| p.assumptions.clone()).collect();
+        out
+    }
+    fn segments(&self, tier: Tier) -> Vec<Segment> {
+        let mut off = 0;
+        let mut v = vec![];
+        for p in &self.parts {
+            for s in p.segments(tier) {
+                v.push(Segment {
+                    from: s.from + off,
+                    to: s.to + off,
+                    ..s
+                });
+            }
+            off += p.plan(tier).cases;
+        }
+        v
+    }
+    fn run_case(&self, env: &Env, k: u64, want_sample: bool) -> CaseResult {
+        let (i, kk) = self.locate(env.tier, k);
+        let mut r = self.parts[i].run_case(env, kk, want_sample);
+        if !r.case.is_null() {
+            r.case = serde_json::json!({"part": i, "case": r.case});
+        }
+        r
+    }
+    fn dump_case(&self, env: &Env, k: u64) -> Value {
+        let (i, kk) = self.locate(env.tier, k);
+        serde_json::json!({"part": i, "case": self.parts[i].dump_case(env, kk)})
+    }
+    fn replay(&self, env: &Env, case: &Value) -> Result<CaseResult, String> {
+        let i = case["part"].as_u64().ok_or("multi-part case without `part`")? as usize;
+        let p = self.parts.get(i).ok_or("part out of range")?;
+        p.replay(env, &case["case"])
+    }
+    fn sidecar(&self, env: &Env) -> Vec<SidecarReport> {
+        self.parts.iter().flat_map(|p| p.sidecar(env)).collect()
     }
 }
